@@ -307,3 +307,44 @@ def e21(ctx: Ctx):
         tx = texts[0].strip()
         ok = tx.upper().startswith("RUN ") and ":=" not in tx and "LET" not in tx.upper().split("RUN")[0]
         ctx.ob(key, ok, "" if ok else f"`{'LET ' if let else ''}A=INT(B)` is emitted as `{tx}`: the hoisted call already stores the result in the target, anything in front of / around `RUN ...` is not a BASIC09 statement", file=r[0].module, line=r[1].lineno, witness="" if ok else "10 LET A=INT(B)")
+
+
+# ---------------------------------------------------------------------------
+# E22 LINE-LABEL
+
+
+@rule("E22", "LINE-LABEL: a line prints its number exactly when it has one and is referenced - whatever it contains (an empty `100 :` target keeps its label), and prints no number otherwise; decided by interpreting the emitter on concrete lines", ["C06", "C02"], floor=4)
+def e22(ctx: Ctx):
+    from .absint import Const as _C, Seq as _S, alts_of as _alts, interp as _interp
+    from .rules_abs import _flatten
+
+    I = _interp(ctx)
+    py = pyfacts(ctx)
+    r = py.resolve_method("BasicLine", "basic09_text")
+    ctx.need(r is not None, "BasicLine.basic09_text", "not found")
+    setter = py.resolve_method("BasicLine", "set_is_referenced")
+    ctx.need(setter is not None, "BasicLine.set_is_referenced", "not found")
+
+    def mk(cls, *a_, **k_):
+        return I.construct(cls, list(a_), k_, r[1].lineno, "BasicLine")
+
+    cases = [
+        ("numbered, referenced, with a statement", 100, True, "full", True),
+        ("numbered, referenced, empty", 100, True, "empty", True),
+        ("line 0, referenced", 0, True, "full", True),
+        ("numbered, not referenced", 100, False, "full", False),
+        ("generated line (no number)", None, True, "full", False),
+    ]
+    for title, num, ref, body, want_label in cases:
+        stmts = mk("BasicStatements", _S([mk("BasicAssignment", mk("BasicVar", _C("A")), mk("BasicLiteral", _C(1.0)))] if body == "full" else [], None))
+        line = mk("BasicLine", _C(num), stmts)
+        I.call_function(setter[1], [line, _C(ref)], self_obj=line, owner=setter[0].name)
+        t = I.call_function(r[1], [line, _C(0)], self_obj=line, owner=r[0].name)
+        texts = ["".join(p_ if isinstance(p_, str) else "{}" for p_ in _flatten(a_)) for a_ in _alts(t)]
+        key = f"BasicLine[{title}]"
+        if len(texts) != 1 or "{" in texts[0]:
+            ctx.undecided(key, f"the text of the line could not be evaluated ({texts})", file=r[0].module, line=r[1].lineno)
+            continue
+        has = texts[0].lstrip().startswith(str(num)) if num is not None else bool(re.match(r"\s*\d+\s", texts[0]))
+        ok = has == want_label
+        ctx.ob(key, ok, "" if ok else f"a line that is {title} is emitted as `{texts[0][:40]}`: " + ("its label is missing, so a jump to it names a line no emitted line carries" if want_label else "it carries a label it should not have"), file=r[0].module, line=r[1].lineno, witness="" if ok else "10 GOSUB 100 / 100 :")
